@@ -6,6 +6,7 @@ import (
 	"fmt"
 	"math/big"
 	"sort"
+	"strconv"
 	"strings"
 )
 
@@ -60,6 +61,8 @@ type Store struct {
 	ufs   map[string]ufDecl
 	path  *path // current path (for concretisation from value-level code)
 	nvars int
+	keybuf []byte
+	splitMemo map[*Term][]*Term // bytes of a wide term, most significant first
 }
 
 type ufDecl struct {
@@ -72,21 +75,32 @@ func NewStore() *Store {
 }
 
 func (st *Store) mk(op string, sort Sort, name string, val *big.Int, hi, lo int, args ...*Term) *Term {
-	var sb strings.Builder
-	sb.WriteString(op)
-	sb.WriteByte('|')
-	sb.WriteString(sort.String())
-	sb.WriteByte('|')
-	sb.WriteString(name)
+	buf := st.keybuf[:0]
+	buf = append(buf, op...)
+	buf = append(buf, '|', byte('0'+int(sort.K)))
+	buf = strconv.AppendInt(buf, int64(sort.W), 10)
+	buf = append(buf, '|')
+	buf = append(buf, name...)
 	if val != nil {
-		sb.WriteByte('#')
-		sb.WriteString(val.String())
+		buf = append(buf, '#')
+		if val.Sign() < 0 {
+			buf = append(buf, '-')
+		}
+		vb := val.Bytes()
+		buf = strconv.AppendInt(buf, int64(len(vb)), 10)
+		buf = append(buf, ':')
+		buf = append(buf, vb...)
 	}
-	fmt.Fprintf(&sb, "|%d|%d", hi, lo)
+	buf = append(buf, '|')
+	buf = strconv.AppendInt(buf, int64(hi), 10)
+	buf = append(buf, '|')
+	buf = strconv.AppendInt(buf, int64(lo), 10)
 	for _, a := range args {
-		fmt.Fprintf(&sb, ",%d", a.id)
+		buf = append(buf, ',')
+		buf = strconv.AppendInt(buf, int64(a.id), 10)
 	}
-	k := sb.String()
+	st.keybuf = buf
+	k := string(buf)
 	if t, ok := st.tab[k]; ok {
 		return t
 	}
